@@ -3,7 +3,7 @@ use crate::gen::{self, Rng};
 use crate::proto::*;
 use crate::{alloc, Out};
 use scale::{Decode, Encode};
-use scale_info::PortableRegistry;
+use scale_info::{Path, PortableRegistry, PortableType, Type, TypeDefPrimitive, TypeDefTuple};
 use std::collections::HashMap;
 use std::panic::{catch_unwind, AssertUnwindSafe};
 
@@ -176,10 +176,37 @@ pub fn codec(r: &mut Rng, n: u64, thorough: bool, out: &mut Out) {
                 }
             }
         }
+        if bytes.len() > 400 && bytes.len() < 100_000 {
+            // too long to mutate: still decode the exact bytes (and one truncation) so that the decoder comparison
+            // sees the long-list shapes as well
+            out.line(&format!("codec {} {}", case, run_dec(&bytes)));
+            case += 1;
+            let k = r.below(bytes.len() as u64) as usize;
+            out.line(&format!("codec {} {}", case, run_dec(&bytes[..k])));
+            case += 1;
+        }
         if i % 4 == 0 {
             let k = r.below(24) as usize;
             let rnd: Vec<u8> = (0..k).map(|_| if r.chance(1, 2) { r.below(16) as u8 } else { r.next() as u8 }).collect();
             out.line(&format!("codec {} {}", case, run_dec(&rnd)));
+            case += 1;
+        }
+    }
+    if !gen::small() {
+        // list lengths at the 2-byte / 4-byte compact boundary (cheap elements)
+        for len in [16383usize, 16384] {
+            let tup = TypeDefTuple::new_portable((0..len).map(|k| ((k % 3) as u32).into()).collect::<Vec<_>>());
+            let docs: Vec<String> = (0..len).map(|_| String::new()).collect();
+            let reg = PortableRegistry {
+                types: vec![
+                    PortableType::new(0, Type::new(Path::from_segments_unchecked(Vec::<String>::new()), Vec::new(), tup, Vec::new())),
+                    PortableType::new(
+                        1,
+                        Type::new(Path::from_segments_unchecked(Vec::<String>::new()), Vec::new(), TypeDefPrimitive::U8, docs),
+                    ),
+                ],
+            };
+            out.line(&format!("codec {} {}", case, run_enc(&reg).1));
             case += 1;
         }
     }
